@@ -390,6 +390,242 @@ def o1_work(tpls: typing.List[typing.Tuple[Tpl, typing.Tuple[bool, ...]]]) -> di
     return r
 
 
+# ====================================================================================================== O1f filters
+# Oracle 1 over the ARGUMENTS of bundled filters: `indent` (its implementation stands next to Nunavut's own `lineprefix`
+# filter and does the same kind of line handling) with every width x first x blank combination in positional and keyword
+# form, and the other filters of that part of filters.py that mean the same in the 2.11.dev snapshot and in 3.1, each
+# applied through every carrier (expression, constant-folded literal, {% filter %} block, macro result, block-set
+# result) to every value of FILTER_VALUES (empty, starting with a line break, made of blank lines, blank-but-not-empty
+# lines, CR / CRLF / other line boundaries, HTML-special text, the same as Markup, non-strings) x autoescape off/on.
+# Not part of the common language (they differ on the pristine snapshot because upstream rewrote them for 3.0; they are
+# not in this space): urlize, wordwrap, wordcount, center on Markup, indent(width='string'), indent(indentfirst=...).
+class FVal(typing.NamedTuple):
+    name: str
+    value: typing.Any
+    markup: bool = False
+
+
+FILTER_VALUES: typing.List[FVal] = [
+    FVal("empty", ""),
+    FVal("word", "a"),
+    FVal("two_lines", "a\nb"),
+    FVal("only_newline", "\n"),
+    FVal("leading_newline", "\nfoo"),
+    FVal("two_newlines", "\n\n"),
+    FVal("blank_lines_around", "\n\nfoo\nbar\n"),
+    FVal("inner_blank_terminated", "a\n\nb\n"),
+    FVal("indented_inner_blank", "  x\n\n  y"),
+    FVal("lines_of_blanks", " \n\t\nz"),
+    FVal("first_line_blanks", "  \nq"),
+    FVal("crlf", "a\r\nb\r\n"),
+    FVal("leading_crlf", "\r\nfoo"),
+    FVal("cr", "a\rb"),
+    FVal("leading_cr_blank", "\r\rb"),
+    FVal("other_boundaries", "a\x0bb\x0cc d\x85e"),
+    FVal("leading_formfeed", "\x0cfoo"),
+    FVal("html", "<b>\n\n&"),
+    FVal("words", "foo bar baz qux"),
+    FVal("paragraphs", "hello  world\n\nnext para"),
+    FVal("hex", "0x1F"),
+    FVal("int", 3),
+    FVal("big_int", 12345678),
+    FVal("float", -2.5),
+    FVal("none", None),
+    FVal("list", [1, "a\nb"]),
+    FVal("mk_empty", "", True),
+    FVal("mk_leading_newline", "\nfoo", True),
+    FVal("mk_only_newline", "\n", True),
+    FVal("mk_html_blank", "<i>\n\n</i> &amp;", True),
+    FVal("mk_crlf", "\r\n<u>\r\n", True),
+    FVal("mk_words", "foo <b>bar</b> baz", True),
+]
+_FVAL = {v.name: v for v in FILTER_VALUES}
+INDENT_WIDTHS: typing.Tuple[typing.Optional[int], ...] = (None, 0, 1, 2, 8)
+TRISTATE: typing.Tuple[typing.Optional[bool], ...] = (None, False, True)
+FILTER_CARRIERS: typing.List[typing.Tuple[str, str]] = [  # F = the filter call, L = the value as a string literal
+    ("expr", "[{{ x|F }}]"),
+    ("literal", "[{{ L|F }}]"),
+    ("filter_block", "[{% filter F %}{{ x }}{% endfilter %}]"),
+    ("macro_result", "{% macro q(a) %}{{ a }}{% endmacro %}[{{ q(x)|F }}]"),
+    ("macro_body_newline", "{% macro q(a) %}\n{{ a }}\n{% endmacro %}[{{ q(x)|F }}]"),
+    ("set_block", "{% set z %}{{ x }}{% endset %}[{{ z|F }}]"),
+]
+OTHER_FILTERS: typing.List[typing.Tuple[str, typing.List[str]]] = [
+    (
+        "truncate",
+        [
+            "",
+            "(5)",
+            "(5, true)",
+            "(5, false, '..')",
+            "(9, false, '...', 0)",
+            "(3, true, '...', 0)",
+            "(2)",
+            "(length=7, killwords=true, end='', leeway=1)",
+            "(0, true, '')",
+            "(4, leeway=0)",
+        ],
+    ),
+    ("trim", [""]),
+    ("striptags", [""]),
+    ("title", [""]),
+    ("capitalize", [""]),
+    ("upper", [""]),
+    ("lower", [""]),
+    ("replace", ["('a', 'b')", "('\\n', '|', 1)"]),
+    ("int", ["", "(7)", "(7, 16)"]),
+    ("float", ["", "(1.5)"]),
+    ("format", ["('x')"]),
+    ("string", [""]),
+    ("default", ["('d')", "('d', true)"]),
+    ("join", ["('|')"]),
+    ("pprint", [""]),
+    ("filesizeformat", ["", "(true)"]),
+    ("length", [""]),
+    ("first", [""]),
+    ("last", [""]),
+    ("e", [""]),
+    ("forceescape", [""]),
+    ("safe", [""]),
+]
+
+
+def _jlit(b: typing.Optional[bool]) -> str:
+    return "true" if b else "false"
+
+
+def indent_calls() -> typing.List[typing.Tuple[str, str]]:
+    """(filter call, argument class) for every width x first x blank, written with keywords and with the longest
+    possible positional prefix; duplicates (same text) removed."""
+    out: typing.List[typing.Tuple[str, str]] = []
+    seen: typing.Set[str] = set()
+    for w, f, b in itertools.product(INDENT_WIDTHS, TRISTATE, TRISTATE):
+        kw = [f"width={w}"] if w is not None else []
+        kw += [f"first={_jlit(f)}"] if f is not None else []
+        kw += [f"blank={_jlit(b)}"] if b is not None else []
+        pos: typing.List[str] = []
+        if w is not None:
+            pos.append(str(w))
+            if f is not None:
+                pos.append(_jlit(f))
+                if b is not None:
+                    pos.append(_jlit(b))
+        rest = kw[len(pos) :]
+        for args in (kw, pos + rest):
+            call = "indent" + ("(" + ", ".join(args) + ")" if args else "")
+            if call not in seen:
+                seen.add(call)
+                cls = f"first={_jlit(f) if f is not None else 'default'},blank={_jlit(b) if b is not None else 'default'}"
+                out.append((call, cls + (",width=0" if w == 0 else "")))
+    return out
+
+
+def _literal(text: str) -> typing.Optional[str]:
+    """A Jinja string literal for the text (None when it cannot be written with the escapes both engines know)."""
+    if any(ch in text for ch in "'\"\\") or any(ord(ch) > 0xFF for ch in text):
+        return None
+    return "'" + "".join(ch if " " <= ch <= "~" else "\\x%02x" % ord(ch) for ch in text) + "'"
+
+
+def value_class(v: FVal) -> str:
+    if not isinstance(v.value, str):
+        return "non_string"
+    lines = v.value.splitlines()
+    if not lines:
+        return "empty"
+    if lines[0] == "":
+        return "first_line_empty"
+    if "" in lines[1:]:
+        return "later_line_empty"
+    return "multi_line" if len(lines) > 1 else "single_line"
+
+
+def of_space() -> typing.Iterator[dict]:
+    """One item = one template (filter call x carrier x autoescape [x literal value]); it is rendered for every value."""
+    calls = [("indent", c, cls) for c, cls in indent_calls()]
+    calls += [(name, name + a, "args=" + (a or "none")) for name, al in OTHER_FILTERS for a in al]
+    for fname, call, cls in calls:
+        for carrier, tpl in FILTER_CARRIERS:
+            if fname != "indent" and carrier not in ("expr", "filter_block", "macro_result"):
+                continue
+            for ae in (False, True):
+                base = {"oracle": "filter", "filter": fname, "call": call, "args": cls, "carrier": carrier, "autoescape": ae}
+                if carrier != "literal":
+                    yield {**base, "template": tpl.replace("F", call, 1)}
+                    continue
+                for v in FILTER_VALUES:
+                    lit = _literal(v.value) if isinstance(v.value, str) and not v.markup else None
+                    if lit is not None:
+                        yield {**base, "template": tpl.replace("F", call, 1).replace("L", lit, 1), "value": v.name}
+
+
+def of_contexts(engine: str, names: typing.Sequence[str]) -> typing.List[typing.Dict[str, typing.Any]]:
+    return [{"x": tw.MarkupSpec(_FVAL[n].value) if _FVAL[n].markup else _FVAL[n].value} for n in names]
+
+
+def of_eval_case(case: dict) -> typing.Optional[typing.Tuple[dict, str]]:
+    """One (template, value, autoescape) of the filter sub-space, bundled vs stock."""
+    ae, v = bool(case.get("autoescape", False)), _FVAL[case["value"]]
+    b = tw.render("bundled", "plain", "lf", case["template"], of_contexts("bundled", [v.name]), ae)[0]
+    s = tw.render("stock", "plain", "lf", case["template"], of_contexts("stock", [v.name]), ae)[0]
+    kind = o1_compare(b, s)
+    if kind is None:
+        return None
+    sig = {
+        "oracle": "filter",
+        "kind": kind,
+        "filter": case["filter"],
+        "args": case["args"],
+        "value": value_class(v),
+        "markup": bool(v.markup or (ae and case["carrier"] not in ("expr", "literal"))),
+    }
+    what = (
+        f"ordinary template {case['template']!r} with x={'Markup' if v.markup else ''}{v.value!r}"
+        f"{' [autoescape]' if ae else ''}: bundled {b!r} vs stock {s!r}"
+    )
+    return sig, what
+
+
+def of_work(items: typing.List[dict]) -> dict:
+    bag = Bag()
+    st = {"templates": 0, "evals": 0, "stock_rendered": 0, "stock_raised": 0, "nontrivial": 0}
+    st.update(expected_first_line_indented_although_empty=0, expected_blank_line_indented=0, expected_markup_kept=0)
+    outcomes: typing.Set[int] = set()
+    samples: typing.List[dict] = []
+    for item in items:
+        names = [item["value"]] if "value" in item else [v.name for v in FILTER_VALUES]
+        ae = item["autoescape"]
+        bs = tw.render("bundled", "plain", "lf", item["template"], of_contexts("bundled", names), ae)
+        ss = tw.render("stock", "plain", "lf", item["template"], of_contexts("stock", names), ae)
+        st["templates"] += 1
+        for n, b, s in zip(names, bs, ss):
+            st["evals"] += 1
+            st["stock_rendered" if s[0] == "ok" else "stock_raised"] += 1
+            if s[0] == "ok":
+                outcomes.add(_h(item["call"] + "\x00" + s[1]))
+                v = _FVAL[n]
+                if s[1] != "[" + str(v.value) + "]":
+                    st["nontrivial"] += 1
+                # oracle side (vacuity guards): what STOCK does with the interesting combinations
+                if item["filter"] == "indent" and isinstance(v.value, str):
+                    if "first=true" in item["args"] and value_class(v) in ("empty", "first_line_empty") and s[1][1:2] == " ":
+                        st["expected_first_line_indented_although_empty"] += 1
+                    if "blank=true" in item["args"] and " \n" in s[1] and " \n" not in v.value:
+                        st["expected_blank_line_indented"] += 1
+                    if ae and v.markup and "<" in s[1]:
+                        st["expected_markup_kept"] += 1
+            if o1_compare(b, s) is None:
+                continue
+            case = {**item, "value": n}
+            ev = of_eval_case(case)
+            if ev is None:
+                raise HarnessError(f"filter disagreement did not reproduce: {case}")
+            bag.add(ev[0], case, ev[1])
+        if len(samples) < 1 and item["filter"] == "indent" and "first=true" in item["args"] and item["carrier"] == "macro_result":
+            samples.append({k: item[k] for k in ("oracle", "template", "autoescape")})
+    return {"bag": bag, "st": st, "outcomes": outcomes, "samples": samples}
+
+
 # ====================================================================================================== O2 grammar
 class Cons(typing.NamedTuple):
     name: str
